@@ -24,6 +24,7 @@ H long h_dump_eleshort(char* keys, char* vals) { Elements e; e.FillEleShort(); l
 H long h_get_elenum(const char* s) { Elements e; try { return e.getEleNum(s); } catch (...) { return -1; } }
 H long h_get_nuccrg(const char* s) { Elements e; try { return e.getNucCrg(s); } catch (...) { return -1; } }
 H long h_get_elename(long z, char* out) { Elements e; try { std::string s = e.getEleName(z); put(out, s, 8); return (long)s.size(); } catch (...) { return -1; } }
+H double h_get_covrad(const char* s, const char* unit) { Elements e; try { return e.getCovRad(s, unit); } catch (...) { return -1.0; } }
 H double h_get_mass(const char* s) { Elements e; try { return e.getMass(s); } catch (...) { return -1.0; } }
 #ifdef VERIF_NATIVE
 #include <cstdio>
@@ -33,6 +34,7 @@ int main() {
     if (!strcmp(cmd, "elenum")) printf("%ld\n", h_get_elenum(key));
     else if (!strcmp(cmd, "nuccrg")) printf("%ld\n", h_get_nuccrg(key));
     else if (!strcmp(cmd, "mass")) printf("%a\n", h_get_mass(key));
+    else if (!strcmp(cmd, "covrad")) { char* c = strchr(key, ':'); if (c) { *c = 0; printf("%a %a\n", h_get_covrad(key, c + 1), h_get_covrad(key, "ang")); } else printf("?\n"); }
     else if (!strcmp(cmd, "elefull")) { Elements e; try { printf("%s\n", e.getEleFull(key).c_str()); } catch (...) { printf("?\n"); } }
     else if (!strcmp(cmd, "eleshort")) { Elements e; try { printf("%s\n", e.getEleShort(key).c_str()); } catch (...) { printf("?\n"); } }
     else if (!strcmp(cmd, "elename")) { char o[8] = {0}; long n = h_get_elename(atol(key), o); printf("%s\n", n < 0 ? "?" : o); }
